@@ -15,6 +15,7 @@ import (
 type PathQ struct {
 	Fn      *ssa.Function
 	From    ssa.Instruction
+	FromBlk *ssa.BasicBlock // alternative start: the beginning of this block
 	Via     func(in ssa.Instruction) bool
 	ViaEdge func(b *ssa.BasicBlock, succ int) bool
 	Prune   func(b *ssa.BasicBlock, succ int) bool
@@ -51,6 +52,8 @@ func (q PathQ) Escape() (ssa.Instruction, []*ssa.BasicBlock) {
 	}
 	if q.From != nil {
 		push(q.From.Block(), nil, IndexOf(q.From)+1, -1)
+	} else if q.FromBlk != nil {
+		trail = append(trail, item{pstate{q.FromBlk, nil}, 0, -1})
 	} else {
 		push(q.Fn.Blocks[0], nil, 0, -1)
 	}
@@ -366,4 +369,16 @@ func CountEvents(fn *ssa.Function, ev func(in ssa.Instruction) int, target func(
 		}
 	}
 	return res
+}
+
+// PruneWhen builds a Prune function that drops the edges on which a condition accepted by pred
+// becomes known (e.g. "the node is not dirty").
+func PruneWhen(pred func(c Cond) bool) func(b *ssa.BasicBlock, succ int) bool {
+	return func(b *ssa.BasicBlock, succ int) bool {
+		ifi, ok := b.Instrs[len(b.Instrs)-1].(*ssa.If)
+		if !ok || b.Succs[0] == b.Succs[1] {
+			return false
+		}
+		return pred(normCond(ifi, ifi.Cond, succ == 0))
+	}
 }
